@@ -315,7 +315,7 @@ func init() {
 		Level: "exploration",
 		Rule: "metamorphic monitor (whole vs chunked): for each input, ParseFile fed by a scripted reader must equal Parse on the same bytes in error text, diagnostics text and Dump bytes. Partitions: EVERY 2-partition for inputs <= 400 bytes, one byte per read, random k-partitions, zero-byte reads at every step position (and at every offset for inputs <= 120 bytes), data together with EOF, and the real 4096-byte pages with the page boundary swept over a 64-byte window of the program (2 and 3 pages). " +
 			"Inputs: hand-picked ones for every lexical-failure kind, multi-byte characters in strings, comments, as U+0085/U+00A0 whitespace and as stray characters, two-character operators and escapes; the repository's testdata; generated programs (valid, with static errors, token-damaged) under hostile layout. " +
-			"distinct = hash(input, read log); non-trivial = at least two non-empty chunks were delivered",
+			"distinct = hash(input, read log); non-trivial = at least two non-empty chunks were delivered Also: 170 non-consecutive zero-byte reads; irregular prime-sized reads; tokens longer than a read page (strings, identifiers, numbers, comments); pieces restarting at each long token; stray 4-byte characters, a byte order mark and bare Latin-1 blank bytes in the fixed inputs.",
 		Assumptions:   []string{"Parse on the whole input is the reference", "thorough tier repeats the workload under the race detector build"},
 		MinNontrivial: 1000,
 		RaceAlso:      func(tier string) bool { return tier == "thorough" },
